@@ -292,6 +292,42 @@ pub fn run(ctx: &Ctx, rec: &mut Rec) {
             }
         }
     });
+    // ---------------- end-to-end impact of the known den = 0 family: with the repository's *pinned*
+    // decompression proving key a Groth16 proof that "s = q-1 decodes to P" verifies for arbitrary P
+    {
+        use ark_groth16::{r1cs_to_qap::LibsnarkReduction, Groth16};
+        use ark_snark::SNARK;
+        rec.declare_form("pinned decompression circuit under the (true, 1) hint");
+        rec.form("pinned decompression circuit under the (true, 1) hint");
+        let qm1 = &ctx.c.f.p - b(1);
+        let claimed = El::GENERATOR * Fr::from(424242u64);
+        let res = guarded(|| -> Result<bool, String> {
+            let (pk, vk) = crate::c15::load_keys("decompression")?;
+            let circuit = crate::c15::Pinned::Decompression { field_element: fq(&qm1), point: claimed };
+            set_isqrt_hint_override(Some(Box::new(|_idx, den, flag, y| if den == Fq::ZERO { (true, Fq::ONE) } else { (flag, y) })));
+            let mut prng = rng_for(ctx.seed, "C14-forge", 0, 0);
+            let proof = Groth16::<decaf377::Bls12_377, LibsnarkReduction>::prove(&pk, circuit.clone(), &mut prng);
+            set_isqrt_hint_override(None);
+            let proof = proof.map_err(|e| format!("{e:?}"))?;
+            let pvk = Groth16::<decaf377::Bls12_377, LibsnarkReduction>::process_vk(&vk).map_err(|e| format!("{e:?}"))?;
+            Groth16::<decaf377::Bls12_377, LibsnarkReduction>::verify_with_processed_vk(&pvk, &circuit.public_inputs(), &proof).map_err(|e| format!("{e:?}"))
+        });
+        set_isqrt_hint_override(None);
+        rec.evals += 1;
+        match res {
+            Ok(Ok(true)) => {
+                rec.count("forged Groth16 proof with the pinned decompression key VERIFIES (known den = 0 family)", 1);
+                rec.violation(
+                format!("{P}:satisfied-but-native-rejects:input-encoding=s=q-1:isqrt:den=0:hint=(true,y^2=1)"),
+                "with the pinned decompression proving key, a Groth16 proof of `the encoding q-1 decodes to 424242*G` VERIFIES under the pinned verifying key (prover hint (true, 1) at den = 0)",
+                json!({"circuit": "tests/test_vectors/decompression_{pk,vk}", "witness_encoding": hexs(&qm1), "claimed_public_element": el_json(&claimed)}),
+                )
+            }
+            Ok(Ok(false)) => rec.count("forged pinned-key proof rejected", 1),
+            Ok(Err(e)) => rec.count(&format!("forged pinned-key proof could not be produced ({})", e.chars().take(40).collect::<String>()), 1),
+            Err(_) => rec.count("forging attempt aborted", 1),
+        }
+    }
     // ---------------- (c) tamper-and-propagate over every other non-deterministic witness
     crate::tamper::run(ctx, rec);
     rec.check_coverage();
